@@ -2,6 +2,9 @@ import GoframeModel.Step
 import GoframeModel.Props.C10
 import GoframeModel.Ops.SqlRead
 import GoframeModel.Lemmas.Rect
+import GoframeModel.Props.C08
+import GoframeModel.Props.C15
+import GoframeModel.Lemmas.RowsWhole
 /-
   C01 — frames stay rectangular and row-aligned through every operation history.
   One-step preservation for every public operation, lifted to every reachable pool by induction over
@@ -114,6 +117,85 @@ example :
     let ops : List Op := [.appendRow 0 [([97], .int .int 3), ([98], .int .int 9)], .iloc 0 [1, 0] [0, 0, 1],
                           .join 1 0 0 [107], .sortValues 0 [[97]] true, .dropNa 0, .shift 0 1]
     (run ω p₀ ops).length = 5 ∧ (run ω p₀ ops).all (fun f => f.rect?) = true := by
+  decide
+
+end Goframe.C01
+
+/-
+  C01, second sentence: "Cells that shared a row before an operation that keeps that row still share a row
+  afterwards." For the row-selecting operations of the model this is stated directly: every row of the result,
+  all its cells together (in column order), is a row of the source. This is the theorem behind the
+  `rows-torn-apart` check the driver evaluates on the implementation's output (lean/Driver/Seq.lean).
+-/
+
+
+namespace Goframe.C01
+open Goframe Frame
+
+/-- `out` has the columns of `src` and every one of its rows is a row of `src` -/
+def RowsFrom (src out : Frame) : Prop :=
+  out.keys = src.keys ∧ ∀ r ∈ out.rows, r ∈ src.rows
+
+/-- selecting rows by position: the frame built from any list of rows of `f` has only rows of `f` -/
+theorem ofRows_rowsFrom {f : Frame} {n : Nat} (hs : f.Sorted) (hr : f.RectN n) (rs : List Row)
+    (h : ∀ r ∈ rs, r ∈ Spec.rowsOf f) : RowsFrom f (Spec.ofRows f.keys rs) := by
+  obtain ⟨idx, h1, rfl⟩ := C01Rows.exists_idx rs h
+  have _ := hr
+  rw [Spec.ofRows_rowMap hs]
+  exact ⟨C01Rows.pickF_keys f idx, C01Rows.pickF_rows_mem idx h1⟩
+
+theorem head_rows_whole {f : Frame} {n : Nat} (hs : f.Sorted) (hr : f.RectN n) (c : Int) (out : Frame)
+    (h : f.head c = .ok out) : RowsFrom f out := by
+  rw [C08.head_spec hs hr c] at h
+  cases h
+  exact ofRows_rowsFrom hs hr _ (fun r hr => List.mem_of_mem_take hr)
+
+theorem tail_rows_whole {f : Frame} {n : Nat} (hs : f.Sorted) (hr : f.RectN n) (c : Int) (hn : (n : Int) < 2 ^ 62)
+    (out : Frame) (h : f.tail c = .ok out) : RowsFrom f out := by
+  rw [C08.tail_spec hs hr c hn] at h
+  cases h
+  exact ofRows_rowsFrom hs hr _ (fun r hr => List.mem_of_mem_drop hr)
+
+theorem rowSlice_rows_whole {f : Frame} {n : Nat} (hs : f.Sorted) (hr : f.RectN n) (a b : Int) :
+    RowsFrom f (f.rowSlice a b) := by
+  rw [C08.rowSlice_spec hs hr a b]
+  exact ofRows_rowsFrom hs hr _ (fun r hr => List.mem_of_mem_take (List.mem_of_mem_drop hr))
+
+theorem filter_rows_whole {f : Frame} {n : Nat} (hs : f.Sorted) (hr : f.RectN n) (p : Nat → Row → Bool) :
+    RowsFrom f (f.filter p) := by
+  rw [(C08.filter_spec hs hr p).1]
+  refine ofRows_rowsFrom hs hr _ (fun r hr => ?_)
+  simp only [List.mem_map, List.mem_filter] at hr
+  obtain ⟨ri, ⟨hmem, _⟩, rfl⟩ := hr
+  exact (List.mem_zipIdx hmem).2.2 ▸ List.getElem_mem _
+
+theorem dropNa_rows_whole {f : Frame} {n : Nat} (hs : f.Sorted) (hr : f.RectN n) (out : Frame)
+    (h : f.dropNa = .ok out) : RowsFrom f out := by
+  rw [C15.dropNa_spec hs hr] at h
+  cases h
+  exact ofRows_rowsFrom hs hr _ (fun r hr => (List.mem_filter.mp hr).1)
+
+theorem dropRow_rows_whole {f : Frame} {n : Nat} (hs : f.Sorted) (hr : f.RectN n) (i : Int) (out : Frame)
+    (h : f.dropRow i = .ok out) : RowsFrom f out := by
+  have hsp := C08.dropRow_spec hs hr i
+  unfold C08.outcomeOfOption at hsp
+  unfold Spec.dropRowSpec at hsp
+  split at hsp
+  · rename_i x hx
+    split at hx
+    · cases hx
+    · cases hx
+      rw [hsp] at h
+      cases h
+      exact ofRows_rowsFrom hs hr _ (fun r hr => List.mem_of_mem_eraseIdx hr)
+  · rw [h] at hsp
+    cases hsp
+
+/-- non-vacuity: a two-row frame, its Head(1) has exactly the first row -/
+example :
+    let f : Frame := [([97], { name := [97], data := [.int .int 1, .int .int 2] }),
+                      ([98], { name := [98], data := [.str [120], .str [121]] })]
+    (Spec.ofRows f.keys ((Spec.rowsOf f).take 1)).rows = [[.int .int 1, .str [120]]] := by
   decide
 
 end Goframe.C01
